@@ -138,6 +138,8 @@ def handle (ds : DState) (op : String) (args impl : List String) : Option (DStat
   | "cr_held" =>
     match args with
     | [kind, _, what] =>
+      -- a second session on the same path: its close answers "not open any more"
+      if kind == "file2" then fin st (judge s!"held.file2.{what}" [] [] [("isopen_false_after_close", impl == ["ok", "0"])]) else
       if st.closedInProc then
         let touches := (kind == "dim" && what == "read") || (kind == "view" && (what == "read" || what == "write")) ||
                        (kind == "file" && (what == "blocks" || what == "id" || what == "mk")) || kind == "copy"
